@@ -127,3 +127,13 @@ pub mod update_fee_tests;
 mod zero_fee_commitment_tests;
 
 pub use self::peer_channel_encryptor::LN_MAX_MSG_LEN;
+
+// Verification hook (C15, used by /verif/mc/transport): with the `_verif_hooks` feature the
+// otherwise crate-private BOLT-8 cipher state machine is re-exported so that an external harness
+// can drive it in isolation against an independent reference. Add-only; nothing changes without
+// the feature.
+#[cfg(all(feature = "_verif_hooks", not(fuzzing)))]
+pub use self::peer_channel_encryptor::{
+	MessageBuf as VerifMessageBuf, NextNoiseStep as VerifNextNoiseStep,
+	PeerChannelEncryptor as VerifPeerChannelEncryptor,
+};
